@@ -154,21 +154,20 @@ class SlowOptimize(BaseException):
     pass
 
 
-def run_limited(fn, t, seconds=25):
-    """fn(t) under a wall-clock limit; a first expiry is retried once with twice the time (a loaded machine must not produce an alarm)"""
+def run_limited(fn, t, seconds=400):
+    """fn(t) under a limit on the CPU time of THIS process (ITIMER_VIRTUAL: a loaded machine does not count against it; the unchanged tree
+    needs ~85 CPU-seconds for the largest family member of the thorough tier, ~3 for the largest of the quick tier).  The decisive
+    measure of the property is the number of optimize() calls (Counter budget); the clock only ends a run that neither returns nor
+    calls optimize any more."""
     def on_alarm(*_a):
         raise SlowOptimize(seconds)
-    for attempt, lim in enumerate((seconds, 2 * seconds)):
-        old = signal.signal(signal.SIGALRM, on_alarm)
-        signal.setitimer(signal.ITIMER_REAL, lim)
-        try:
-            return fn(t)
-        except SlowOptimize:
-            if attempt == 1:
-                raise SlowOptimize(lim) from None
-        finally:
-            signal.setitimer(signal.ITIMER_REAL, 0)
-            signal.signal(signal.SIGALRM, old)
+    old = signal.signal(signal.SIGVTALRM, on_alarm)
+    signal.setitimer(signal.ITIMER_VIRTUAL, seconds)
+    try:
+        return fn(t)
+    finally:
+        signal.setitimer(signal.ITIMER_VIRTUAL, 0)
+        signal.signal(signal.SIGVTALRM, old)
 
 
 def count_search(payload, fails):
@@ -184,7 +183,7 @@ def count_search(payload, fails):
                     run_limited(optimize, t)
                     err = None
                 except SlowOptimize as e:
-                    err = f"did not return within {e.args[0]} s (twice; the unchanged tree needs well under a second for this size)"
+                    err = f"did not return within {e.args[0]} CPU-seconds of this process (the unchanged tree needs at most ~85 for the largest family member)"
                 except BudgetExceeded:
                     err, over = None, True
                 except RecursionError:
